@@ -11,6 +11,8 @@
         [t |-> "struct", k |-> <<field names>>, v |-> <<values>>]   (fields in creation order)
         [t |-> "dict", k |-> <<keys>>, v |-> <<values>>]  [t |-> "set", v |-> <<values>>]  (insertion order)
         [t |-> "range", v |-> <<the integers it yields>>]
+        [t |-> "rec", ty |-> "RecA", k |-> <<field names>>, v |-> <<values>>]   instance of a record type
+        [t |-> "ev", ty |-> "EnA", i |-> index]                                  value of an enum type
 
    Eq        mathematical equality: numbers by exact value across int/float; strings, tuples,
              lists structurally; structs, dicts and sets regardless of the order in which their
@@ -38,6 +40,8 @@ StructV(ks, vs) == [t |-> "struct", k |-> ks, v |-> vs]
 DictV(ks, vs) == [t |-> "dict", k |-> ks, v |-> vs]
 SetV(vs) == [t |-> "set", v |-> vs]
 RangeV(vs) == [t |-> "range", v |-> vs]
+RecIV(ty, ks, vs) == [t |-> "rec", ty |-> ty, k |-> ks, v |-> vs]
+EnumIV(ty, ix) == [t |-> "ev", ty |-> ty, i |-> ix]
 
 Kind(x) == IF x.t \in {"int", "float"} THEN "num" ELSE x.t
 
@@ -55,6 +59,9 @@ Eq(x, y) ==
            [] Kind(x) = "none"  -> TRUE
            [] Kind(x) \in {"tuple", "list", "range"} -> (Len(x.v) = Len(y.v) /\ SeqEq(x.v, y.v, 1))
            [] Kind(x) = "struct" -> (Len(x.k) = Len(y.k) /\ EntriesIn(x.k, x.v, y.k, y.v, LAMBDA aa, bb : aa = bb))
+           \* nominal: instances of two declarations of the same shape are different values
+           [] Kind(x) = "rec" -> (x.ty = y.ty /\ Len(x.v) = Len(y.v) /\ SeqEq(x.v, y.v, 1))
+           [] Kind(x) = "ev" -> (x.ty = y.ty /\ x.i = y.i)
            [] Kind(x) = "dict"   -> (Len(x.k) = Len(y.k) /\ EntriesIn(x.k, x.v, y.k, y.v, Eq))
            [] Kind(x) = "set"    -> (Len(x.v) = Len(y.v) /\ \A ix \in 1..Len(x.v) : \E jx \in 1..Len(y.v) : Eq(x.v[ix], y.v[jx]))
 
@@ -77,11 +84,11 @@ Cmp3(x, y) ==
            [] Kind(x) = "none"  -> 2
            [] Kind(x) \in {"tuple", "list"} -> SeqCmp(x.v, y.v, 1)
            [] Kind(x) = "struct" -> 3
-           [] Kind(x) \in {"dict", "set", "range"} -> 2
+           [] Kind(x) \in {"dict", "set", "range", "rec", "ev"} -> 2
 
 RECURSIVE Hashable(_)
 Hashable(x) == CASE x.t \in {"list", "dict", "set", "range"} -> FALSE
-                 [] x.t \in {"tuple", "struct"} -> (\A ix \in 1..Len(x.v) : Hashable(x.v[ix]))
+                 [] x.t \in {"tuple", "struct", "rec"} -> (\A ix \in 1..Len(x.v) : Hashable(x.v[ix]))
                  [] OTHER -> TRUE
 
 RECURSIVE JoinCodes(_, _)
@@ -102,10 +109,12 @@ HashClass(x) == CASE Kind(x) = "num"  -> NumHashClass(x)
                   [] x.t = "list"  -> ("l(" \o JoinHC(x.v, 1) \o ")")      \* not hashable; named for completeness
                   [] x.t = "struct" -> ("st(" \o CanonText(x, CanonFields(x), 1) \o ")")   \* fields in the order of FieldOrder
                   [] x.t \in {"dict", "set", "range"} -> ("u:" \o x.t)      \* not hashable
+                  [] x.t = "rec" -> ("r:" \o x.ty \o "(" \o JoinHC(x.v, 1) \o ")")
+                  [] x.t = "ev" -> ("e:" \o x.ty \o ToString(x.i))
 
 RECURSIVE WellFormedV(_)
 WellFormedV(x) == IF Kind(x) = "num" THEN WellFormed(x)
-                  ELSE IF x.t \in {"tuple", "list", "struct", "set", "range"} THEN \A ix \in 1..Len(x.v) : WellFormedV(x.v[ix])
+                  ELSE IF x.t \in {"tuple", "list", "struct", "set", "range", "rec"} THEN \A ix \in 1..Len(x.v) : WellFormedV(x.v[ix])
                   ELSE IF x.t = "dict" THEN \A ix \in 1..Len(x.v) : WellFormedV(x.v[ix]) /\ WellFormedV(x.k[ix])
                   ELSE TRUE
 
@@ -288,6 +297,21 @@ Structs == <<StructEnt(<<>>, <<>>, <<<<>>>>), StructEnt(<<"a">>, <<I1>>, P1), St
              Ent(StructV(<<"a">>, <<SAB.v>>), <<Rep("n1", "struct(a = " \o SAB.reps[1].src \o ")"),
                                                 Rep("n2", "struct(a = " \o SAB.reps[2].src \o ")"),
                                                 Rep("n3", "struct(a = " \o SAB.reps[4].src \o ")")>>)>>
+\* record / enum instances: RecA and RecB (EnA and EnB) are two declarations of the same shape
+RecEnt(ty, e1, e2) ==
+    Ent(RecIV(ty, <<"a", "b">>, <<e1.v, e2.v>>),
+        <<Rep("kw", ty \o "(a = " \o e1.reps[1].src \o ", b = " \o e2.reps[1].src \o ")"),
+          Rep("kwrev", ty \o "(b = " \o e2.reps[1].src \o ", a = " \o e1.reps[1].src \o ")"),
+          Rep("star", ty \o "(**{" \o Q \o "b" \o Q \o ": " \o e2.reps[1].src \o ", " \o Q \o "a" \o Q \o ": " \o e1.reps[1].src \o "})")>>)
+EnumEnt(ty, ix, nm) ==
+    Ent(EnumIV(ty, ix),
+        <<Rep("call", ty \o "(" \o Q \o nm \o Q \o ")"), Rep("index", ty \o "[" \o ToString(ix) \o "]"),
+          Rep("attr", ty \o "." \o nm), Rep("iter", "[ev_ for ev_ in " \o ty \o "][" \o ToString(ix) \o "]")>>)
+Nominal == <<RecEnt("RecA", I1, I2), RecEnt("RecB", I1, I2), RecEnt("RecA", I2, I1), RecEnt("RecA", I1, I1),
+             EnumEnt("EnA", 0, "x"), EnumEnt("EnA", 1, "y"), EnumEnt("EnB", 0, "x"),
+             Ent(TupV(<<RecIV("RecA", <<"a", "b">>, <<I1.v, I2.v>>), EnumIV("EnA", 1)>>),
+                 <<Rep("t1", "(RecA(a = 1, b = 2), EnA(" \o Q \o "y" \o Q \o "))"), Rep("t2", "(RecA(b = 2, a = 1), EnA[1])")>>)>>
+
 Unhash == <<DictEnt(<<>>, <<>>, <<<<>>>>), DictEnt(<<I1, SA>>, <<I2, I1>>, P2x), DictEnt(<<F1, SA>>, <<I2, F1>>, P2x),
             DictEnt(<<I1, SA>>, <<I1, I2>>, P2x), DictEnt(<<I1, I2, SA>>, <<I1, I1, I1>>, P3x),
             SetEnt(<<>>, <<<<>>>>), SetEnt(<<I1, I2>>, P2x), SetEnt(<<F1, I2>>, P2x), SetEnt(<<I1, I2, SA>>, P3x), SetEnt(<<I1>>, P1),
@@ -296,7 +320,7 @@ Unhash == <<DictEnt(<<>>, <<>>, <<<<>>>>), DictEnt(<<I1, SA>>, <<I2, I1>>, P2x),
             Ent(RangeV(<<I0.v, I2.v>>), <<Rep("r3", "range(0, 3, 2)"), Rep("r4", "range(0, 4, 2)"), Rep("rslice", "range(5)[0:4:2]")>>),
             ListEnt(<<I0, I1, I2>>)>>
 
-U  == Ints \o Floats \o Strs \o Others \o Tups \o Lists \o Structs \o Unhash
+U  == Ints \o Floats \o Strs \o Others \o Tups \o Lists \o Structs \o Nominal \o Unhash
 NU == Len(U)
 NNum == Len(Ints) + Len(Floats)                 \* the numbers are U[1..NNum]
 
